@@ -148,9 +148,9 @@ FAMILIES["pool"] = {
 
 TB_COMMON = []
 
-SOLVE_Q = {"quick": 2500, "thorough": 60000}
-SOFT_Q = {"quick": 2500, "thorough": 60000}
-CF_Q = {"quick": 2500, "thorough": 40000}
+SOLVE_Q = {"quick": 8000, "thorough": 150000}
+SOFT_Q = {"quick": 8000, "thorough": 150000}
+CF_Q = {"quick": 6000, "thorough": 100000}
 
 PROPS = {
     "C01": {
@@ -213,7 +213,7 @@ PROPS = {
         "nt_rule": "preferred",
         "level": "other", "module": "Resolvo.Props.C07",
         "theorems": ["Resolvo.C07.firstChoice_favored", "Resolvo.C07.firstChoice_ranked", "Resolvo.C07.union_order"],
-        "families": [("conflictfree", CF_Q), ("async-cf", {"quick": 3000, "thorough": 40000}), ("solve", SOLVE_Q)],
+        "families": [("conflictfree", CF_Q), ("async-cf", {"quick": 6000, "thorough": 100000}), ("solve", SOLVE_Q)],
         "explanation": "PROVED: characterisation of the first choice (favored first, then best rank; unions in listed order) in the SolverCache model. CHECKED PER RUN: whenever the driver finds the preferred closure consistent (C07 hypothesis), the implementation's solution must equal it as a set. NOT YET PROVED: the universal statement for the model of the search.",
     },
     "C08": {
@@ -225,26 +225,26 @@ PROPS = {
     "C09": {
         "nt_rule": "calls5",
         "level": "other", "module": "Resolvo.Props.C09", "theorems": ["Resolvo.C09.at_most_once_cache"],
-        "families": [("lazy", {"quick": 4000, "thorough": 80000}), ("conflictfree", CF_Q), ("soft", SOFT_Q), ("cache", {"quick": 1500, "thorough": 20000})],
+        "families": [("lazy", {"quick": 8000, "thorough": 150000}), ("conflictfree", CF_Q), ("soft", SOFT_Q), ("cache", {"quick": 1500, "thorough": 20000})],
         "explanation": "PROVED: cache-level at-most-once. CHECKED PER RUN: causal order and at-most-once of the provider call log of every sync run without hints; exact call-log correspondence of SolverCache with its model.",
     },
     "C10": {
         "nt_rule": "async3",
         "level": "other", "module": "Resolvo.Props.C10", "theorems": ["Resolvo.C10.verdict_reference"],
-        "families": [("async", {"quick": 4000, "thorough": 100000}), ("reuse-async", {"quick": 1500, "thorough": 30000})],
+        "families": [("async", {"quick": 8000, "thorough": 150000}), ("reuse-async", {"quick": 4000, "thorough": 80000})],
         "explanation": "CHECKED PER RUN (real solver, manual single-threaded executor, FIFO/LIFO/random completion orders, optionally async filter/sort): validB on every answer, verdict = verified decideSolvable (= sync verdict), no obtained answer requested twice, no deadlock (solver pending with nothing outstanding), no panic. PROVED: exactness of the verdict reference. NOT PROVED: a model of the FuturesUnordered/Event protocol (planned Sched.lean); waker delivery and cooperative yielding of real executors are outside the model.",
         "assumptions": ["single-threaded executor that wakes a task only when the future it is parked on completes"],
     },
     "C11": {
         "nt_rule": "async3",
         "level": "other", "module": "Resolvo.Props.C10", "theorems": [],
-        "families": [("async", {"quick": 4000, "thorough": 100000}), ("reuse-async", {"quick": 1500, "thorough": 30000})],
+        "families": [("async", {"quick": 8000, "thorough": 150000}), ("reuse-async", {"quick": 4000, "thorough": 80000})],
         "explanation": "CHECKED PER RUN: at every quiescent point of every schedule (the solver's future returned Pending without a pending self-wake) the set of outstanding provider requests is recorded; c11Check requires every get_candidates request implied by dependency information already received (the root's, and that of every solvable whose get_dependencies has completed) to be outstanding or answered - in particular a root with k requirements on distinct packages has k candidate requests in flight at the first quiescent point. No theorem yet (no scheduler model); claimed as exploration with an executable oracle.",
     },
     "C13": {
         "nt_rule": "multi",
         "level": "proof", "module": "Resolvo.Props.C13", "theorems": ["Resolvo.C13.each_valid", "Resolvo.C13.each_verdict"],
-        "families": [("reuse", {"quick": 2500, "thorough": 60000}), ("reuse-async", {"quick": 2000, "thorough": 40000})],
+        "families": [("reuse", {"quick": 5000, "thorough": 100000}), ("reuse-async", {"quick": 4000, "thorough": 80000})],
         "explanation": "PROVED: in every history of solves on one solver of the checked model (any problems, any outcomes incl. Cancelled and Unsolvable, any cache contents) every returned solution is valid and supported and every Unsolvable verdict is sound. TIE: exact correspondence of whole sync histories (results, solution orders, call logs with polls, solver histories) between MDet and the real solver. CHECKED PER RUN: no refetch of obtained metadata across solves, termination/no deadlock after cancellation with requests in flight (async). NOT PROVED: checkFailed never occurs; termination.",
     },
     "C12": {
@@ -252,7 +252,7 @@ PROPS = {
         "nt_rule": "cancelled",
         "level": "other", "module": "Resolvo.Props.C12",
         "theorems": ["Resolvo.C12.poll_fires", "Resolvo.C12.poll_transparent", "Resolvo.C12.no_deps_request_after_signal", "Resolvo.C12.no_cands_request_after_signal"],
-        "families": [("cancel", {"quick": 4000, "thorough": 80000})],
+        "families": [("cancel", {"quick": 8000, "thorough": 150000})],
         "explanation": "PROVED on the model: a poll that sees the signal aborts the solve with exactly the provider's value and logs nothing else; a poll that does not see it only increments the poll counter (transparency); an uncached get_dependencies / get_candidates whose preceding poll sees the signal is never issued. "
                        "TIE: exact equality of result, cancellation value and the provider call log *including every poll in order* between MDet and the real solver, under cancellation plans drawn from the uncancelled run (signal up at poll k for every k incl. never; signal raised while provider request j is served; persistent and transient). "
                        "ORACLES on the implementation's own log: observed signal => Cancelled with that value, no request after observation, no request after the signal went up, persistent signal never ignored. Async runs with requests in flight: see C10/C13 families.",
@@ -261,7 +261,7 @@ PROPS = {
         "nt_rule": "soft_rejected_or_accepted",
         "level": "other", "module": "Resolvo.Props.C14", "imports": ["Resolvo.MDet.CheckedProofs"],
         "theorems": ["Resolvo.MDet.solveChecked_soft_never_error", "Resolvo.MDet.solveChecked_ok_valid", "Resolvo.C14.exempt_only_affects_lock_exclusion", "Resolvo.C14.never_error"],
-        "families": [("soft", {"quick": 4000, "thorough": 80000})],
+        "families": [("soft", SOFT_Q)],
         "profiles": ["debug", "release"],
         "explanation": "PROVED: a history accepted by the abstract system never reports Unsolvable for a solvable hard problem; the exemption affects only the lock/exclusion conjunct. CHECKED PER RUN on the soft family: validB with exemption, verdict vs verified decideSolvable, history acceptance, no panic (debug and release).",
     },
@@ -272,7 +272,7 @@ PROPS = {
         "theorems": ["Resolvo.C19.step_refines", "Resolvo.C19.run_represents", "Resolvo.C19.get_refines",
                      "Resolvo.C19.iter_complete", "Resolvo.C19.iter_sorted", "Resolvo.C19.iter_nodup",
                      "Resolvo.C19.len_eq_iter_length", "Resolvo.C19.isEmpty_iff", "Resolvo.C19.serde_roundtrip"],
-        "families": [("mapping", {"quick": 4000, "thorough": 120000})],
+        "families": [("mapping", {"quick": 8000, "thorough": 200000})],
         "assumptions": ["the chunk size is the constant re-read from src/internal/mapping.rs on every run (theorems hold for every positive size)",
                         "serde_json's text layer is not modelled: a Mapping is serialised as the list the model says",
                         "pointer-level unsafe code (get_unchecked) is modelled as checked indexing"],
@@ -292,7 +292,7 @@ PROPS = {
         "level": "other", "module": "Resolvo.Props.C16",
         "theorems": ["Resolvo.C16.added_fresh", "Resolvo.C16.added_distinct", "Resolvo.C16.captured_resolves", "Resolvo.C16.added_resolves",
                      "Resolvo.C16.mapping_roundtrip", "Resolvo.C16.closure_mono"],
-        "families": [("snapshot", {"quick": 2500, "thorough": 60000})],
+        "families": [("snapshot", {"quick": 5000, "thorough": 100000})],
         "explanation": "PROVED: ids of added version sets never alias captured ids or each other; every captured id incl. the highest resolves to the captured set and every added id to its added set; Mapping serde round-trip keeps contents (C19); seeds are in every capture. "
                        "CHECKED PER RUN: the real snapshot equals the model's capture field by field (solvables with name / order / hint / dependencies, version sets with matching sets, unions, packages with candidate order and exclusions, strings), before and after serde_json round-trip; "
                        "verdict through the snapshot and through the deserialised snapshot = verified decideSolvable on the live data (with the added version sets), solutions valid against the live data, ids returned by add_package_requirement fresh. "
@@ -305,7 +305,7 @@ PROPS = {
         "theorems": ["Resolvo.C18.alloc_dense", "Resolvo.C18.addr_stable", "Resolvo.C18.resolve_stable", "Resolvo.C18.resolve_new",
                      "Resolvo.C18.capacity_never_exceeded", "Resolvo.C18.reachable_inv", "Resolvo.C18.tinv_intern", "Resolvo.C18.intern_twice",
                      "Resolvo.C18.resolve_intern", "Resolvo.C18.ids_injective", "Resolvo.C18.lookup_after_intern", "Resolvo.C18.table_resolve_stable"],
-        "families": [("pool", {"quick": 1500, "thorough": 40000})],
+        "families": [("pool", {"quick": 3000, "thorough": 60000})],
         "assumptions": ["same (chunk, offset) means same machine address: Vec::with_capacity(CHUNK) does not reallocate below capacity (capacity_never_exceeded shows it is never exceeded)",
                         "UnsafeCell aliasing rules are not modelled (Miri-explorable, not proved)"],
     },
@@ -313,7 +313,7 @@ PROPS = {
         "level": "proof", "module": "Resolvo.Props.C20",
         "theorems": ["Resolvo.C20.partition", "Resolvo.C20.sorted_members", "Resolvo.C20.sorted_favored", "Resolvo.C20.sorted_unfavored",
                      "Resolvo.C20.sort_is_sorted", "Resolvo.C20.answer_state_independent", "Resolvo.C20.repeat_no_call", "Resolvo.C20.available_iff"],
-        "families": [("cache", {"quick": 2500, "thorough": 60000})],
+        "families": [("cache", {"quick": 6000, "thorough": 100000})],
         "assumptions": ["provider contract: filter_candidates is a pure membership filter, sort_candidates a stable sort by a per-solvable key (the table provider of the harness)"],
     },
 }
